@@ -284,3 +284,61 @@ pub fn gen_source(rng: &mut Rng, keys: &[K], seq_hi: u64, max_versions: usize, d
     }
     out
 }
+
+
+// ------------------------------------------------------------------------------------------------ last-gasp crash report
+// Corrupted inputs can drive the code under test into SIGSEGV / SIGBUS / abort (unsafe block decoding). The instrument then
+// still has to name the input: before each probe it renders the RESULT line it wants printed if the process dies.
+static mut CRASH_BUF: [u8; 4096] = [0; 4096];
+static CRASH_LEN: std::sync::atomic::AtomicUsize = std::sync::atomic::AtomicUsize::new(0);
+
+pub fn crash_note(evaluations: u64, msg: &str) {
+    let esc: String = msg.chars().filter(|c| *c != '"' && *c != '\\' && !c.is_control()).take(3000).collect();
+    let line = format!("RESULT {{\"evaluations\":{evaluations},\"distinct_nontrivial\":1,\"counters\":{{}},\"samples\":[],\"disagreements\":[],\"oracle_failures\":[\"{esc}\"],\"known_findings\":[]}}\n");
+    let b = line.as_bytes();
+    let n = b.len().min(4096);
+    CRASH_LEN.store(0, std::sync::atomic::Ordering::SeqCst);
+    unsafe {
+        let dst = std::ptr::addr_of_mut!(CRASH_BUF) as *mut u8;
+        std::ptr::copy_nonoverlapping(b.as_ptr(), dst, n);
+    }
+    CRASH_LEN.store(n, std::sync::atomic::Ordering::SeqCst);
+}
+
+/// what the supervisor of the flip instrument reads when a worker dies: `CRASH idx=<probe> known=<0|1> <message>`
+pub fn crash_line(idx: u64, known: bool, msg: &str) {
+    let clean: String = msg.chars().filter(|c| !c.is_control()).take(3000).collect();
+    let line = format!("CRASH idx={idx} known={} {clean}\n", u8::from(known));
+    let b = line.as_bytes();
+    let n = b.len().min(4096);
+    CRASH_LEN.store(0, std::sync::atomic::Ordering::SeqCst);
+    unsafe {
+        let dst = std::ptr::addr_of_mut!(CRASH_BUF) as *mut u8;
+        std::ptr::copy_nonoverlapping(b.as_ptr(), dst, n);
+    }
+    CRASH_LEN.store(n, std::sync::atomic::Ordering::SeqCst);
+}
+
+pub fn crash_note_clear() {
+    CRASH_LEN.store(0, std::sync::atomic::Ordering::SeqCst);
+}
+
+extern "C" fn on_crash(sig: i32) {
+    unsafe {
+        let n = CRASH_LEN.load(std::sync::atomic::Ordering::SeqCst);
+        if n > 0 {
+            let src = std::ptr::addr_of!(CRASH_BUF) as *const u8;
+            libc::write(1, src as *const libc::c_void, n);
+            libc::_exit(0);
+        }
+        libc::_exit(128 + sig);
+    }
+}
+
+pub fn install_crash_reporter() {
+    unsafe {
+        for s in [libc::SIGSEGV, libc::SIGBUS, libc::SIGABRT, libc::SIGILL, libc::SIGFPE] {
+            libc::signal(s, on_crash as usize);
+        }
+    }
+}
